@@ -467,12 +467,20 @@ def r1_es(ctx: Ctx, rep: Report):
                 out |= set(re.findall(r"OperationMode\.(\w+)", norm(n.args[0]))) or {"?" + norm(n.args[0])}
         return out
 
+    offered: Set[str] = set()
+    for _cond, _names in offered_modes(ctx, es.methods["get_operation_modes"]):
+        offered |= set(_names)
     for p in enumerate_paths(prog, fn, no_raise):
         sel = mode_of_path(ctx, p, fn.params[1])
         if sel is None or p.end == "raise" or len(sel) > 2:
             continue
         helpers = [ev.node for ev in p.events if ev.kind == "call" and (call_chain(ev.node) or ("", ""))[0] == "self" and (call_chain(ev.node) or ("", ""))[-1].startswith("_set_")]
         if not helpers:
+            # an offered mode whose path ends without any mode helper: work_mode keeps its old value
+            for m in sorted(sel & offered):
+                rep.violation("C19.R1", "es-mode:%s" % m, fn.loc(p.end_node) if p.end_node is not None else fn.loc(),
+                              "ES.set_operation_mode(OperationMode.%s) ends without a _set_*_mode helper: work_mode is never written and get_operation_mode() "
+                              "keeps answering the previous mode [path %s]" % (m, p.describe(8)))
             continue
         last = helpers[-1]
         callee = es.methods.get((call_chain(last) or ("",))[-1])
